@@ -29,21 +29,21 @@ import (
 
 const rule = "time-lines: interval 1 s or 2 s, 1-16 writers each looping a script of {write of 1 B..64 KiB, sleep, wait until just before/at the next boundary then burst}, running 2.2-4.5 s (quick) / up to 10 s (thorough), with generated stop/start cycles (writers quiesced) inside one second; non-trivial = >=2 files and a write within 5 ms of a boundary while >=2 writers were active, or a restart within one second; distinct by the drawn time-line"
 
-// The process runs in a local zone that is not UTC (chosen by the seed): file names carry the
+// The process runs in a local zone that is not UTC (one per step of the check): file names carry the
 // local wall clock, and harness and library must agree on it.
 func init() {
-	seed, _ := strconv.Atoi(os.Getenv("VERIF_SEED"))
-	// each step of the check is a process of its own: together they cover a zone east of UTC, one
-	// west of it (where local names read as UTC lie in the future) and one with a 30-minute offset
+	// each step of the check is a process of its own: together they cover a zone west of UTC (where
+	// local names read as UTC lie hours in the past, and real UTC names would lie in the future), a
+	// zone with a 30-minute offset east of it, and one an hour east
+	zone := time.FixedZone("-0800", -28800)
 	for _, a := range os.Args {
 		if strings.Contains(a, "Edges") {
-			seed++
+			zone = time.FixedZone("+0530", 19800)
 		} else if strings.Contains(a, "Stalled") {
-			seed += 2
+			zone = time.FixedZone("+0100", 3600)
 		}
 	}
-	zones := []*time.Location{time.FixedZone("+0530", 19800), time.FixedZone("-0800", -28800), time.FixedZone("+0100", 3600)}
-	time.Local = zones[((seed%len(zones))+len(zones))%len(zones)]
+	time.Local = zone
 }
 
 // recLayout hands the appender the record an event carries in its first field, verbatim: the
